@@ -128,16 +128,16 @@ func (w *vWorld) snap(g int) snapshot {
 }
 
 type jsum struct {
-	taintAdds, untaints, otherUpdates   int
-	taintAttempts, untaintAttempts      int
-	increases                           int   // accepted SetDesiredCapacity above previous desired
-	increaseAttempts                    int   // SetDesiredCapacity / CreateFleet attempts
-	added                               int64 // total accepted capacity increase
-	terminates, deletes                 int
-	terminateAttempts, deleteAttempts   int
-	fleet, attach, terminateInstances   int
-	total                               int
-	lastTarget, lastPrev                int64
+	taintAdds, untaints, otherUpdates int
+	taintAttempts, untaintAttempts    int
+	increases                         int   // accepted SetDesiredCapacity above previous desired
+	increaseAttempts                  int   // SetDesiredCapacity / CreateFleet attempts
+	added                             int64 // total accepted capacity increase
+	terminates, deletes               int
+	terminateAttempts, deleteAttempts int
+	fleet, attach, terminateInstances int
+	total                             int
+	lastTarget, lastPrev              int64
 }
 
 // summarize counts the journalled calls of group g in Calls[from:].
